@@ -84,6 +84,7 @@ type verifTransport struct {
 	serverCtx  context.Context
 	rec        *verifRecorder
 	inline     bool // run the handler in the caller's goroutine (sequential harnesses)
+	respExtra  http.Header // headers an intermediary adds to the response
 }
 
 func (t *verifTransport) RoundTrip(req *http.Request) (*http.Response, error) {
@@ -137,7 +138,7 @@ func (t *verifTransport) RoundTrip(req *http.Request) (*http.Response, error) {
 	return &http.Response{
 		StatusCode: rec.code, Status: fmt.Sprintf("%d %s", rec.code, http.StatusText(rec.code)),
 		Proto: "HTTP/1.1", ProtoMajor: 1, ProtoMinor: 1,
-		Header: verifWireResp(rec.sent), Body: ioutil.NopCloser(bytes.NewReader(rec.body)), TLS: t.tls, Request: req,
+		Header: verifAddHeaders(verifWireResp(rec.sent), t.respExtra), Body: ioutil.NopCloser(bytes.NewReader(rec.body)), TLS: t.tls, Request: req,
 	}, nil
 }
 
@@ -274,6 +275,7 @@ type verifStreamTransport struct {
 	rec        *verifStreamRecorder
 	done       chan struct{} // closed when the handler has returned
 	buffered   bool          // see verifStreamRecorder.buffered
+	respExtra  http.Header   // headers an intermediary adds to the response
 }
 
 func (t *verifStreamTransport) RoundTrip(req *http.Request) (*http.Response, error) {
@@ -339,7 +341,7 @@ func (t *verifStreamTransport) RoundTrip(req *http.Request) (*http.Response, err
 	return &http.Response{
 		StatusCode: rec.code, Status: fmt.Sprintf("%d %s", rec.code, http.StatusText(rec.code)),
 		Proto: "HTTP/1.1", ProtoMajor: 1, ProtoMinor: 1,
-		Header: verifWireResp(rec.sent), Body: pr, TLS: t.tls, Request: req,
+		Header: verifAddHeaders(verifWireResp(rec.sent), t.respExtra), Body: pr, TLS: t.tls, Request: req,
 	}, nil
 }
 
@@ -458,4 +460,15 @@ func (r *verifRouter) RoundTrip(req *http.Request) (*http.Response, error) {
 func VerifHTTPChannel(h *zzfix.Hooks) grpc.ClientConnInterface {
 	ch, _, _ := verifHTTP(h)
 	return ch
+}
+
+// verifAddHeaders adds what an intermediary (proxy, tracing middleware) put on the
+// response to the headers the server sent.
+func verifAddHeaders(h, extra http.Header) http.Header {
+	for k, vs := range extra {
+		for _, v := range vs {
+			h.Add(k, v)
+		}
+	}
+	return h
 }
